@@ -887,6 +887,18 @@ def stream_cache(tier, seed):
             else:
                 ops.append("f")
         emit(cap, ops)
+    # H5: long histories (hundreds of insertions, dozens of laps, keys re-used after eviction): bookkeeping that is
+    # narrower than usize or degrades with the number of operations
+    for cap in (3, 8, 16):
+        for nins in ((300, 700) if tier == "quick" else (300, 700, 70000 // cap)):
+            counter[0] = 0
+            pool = [1, 2, 3, 1, 1, 2, cap // 2 + 1]
+            ops = []
+            for j in range(nins):
+                ops.append("i:%d:%s" % (j % 41, hx(val(pool[j % len(pool)]))))
+                if j % 97 == 0:
+                    ops += ["l", "f"]
+            emit(cap, ops)
     # H4: content and key extremes: the same bytes stored under different keys (a cache must not de-duplicate by
     # content), values of zero bytes (what the fresh buffer holds), values equal to what they overwrite, keys 0,
     # 2^63 and 2^64 - 1
